@@ -134,6 +134,13 @@ for v in ck.violations:
         v['native'] = dict(rep, text=text)
         v['replayed'] = rep.get('expr_parser') != want or rep.get('stmt_parser') != want
         continue
+    if 'special' in w:
+        text = '0 ' + ('NOT ' if w['negated'] else '') + ('BETWEEN 1 AND 2 ' if w['special'] == 'Between' else 'LIKE 1 ') + w['postfix']
+        rep = Replay.call({'op': 'parse_grouping', 'text': text})
+        v['native'] = dict(rep, text=text)
+        shape = lambda t: isinstance(t, dict) and t.get('special') == w['special'] and isinstance(t.get('last'), dict) and t['last'].get('postfix') == w['postfix']
+        v['replayed'] = not shape(rep.get('expr_parser')) or not shape(rep.get('stmt_parser'))
+        continue
     if 'prefixes' in w:
         text = ' '.join(SYM_PREFIX[p_] for p_ in w['prefixes']) + ' 0'
         rep = Replay.call({'op': 'parse_grouping', 'text': text})
